@@ -190,9 +190,15 @@ def run_family(fam, tier, seed):
         procs.append((h, d, hcmd))
     res = {'cases': 0, 'nontrivial': 0, 'mismatch': 0, 'oracle': 0, 'known': 0, 'fidelity': 0, 'skipped': 0, 'MISMATCH': [], 'ORACLE': [],
            'KNOWN': [], 'SAMPLE': [], 'errors': [], 'cmds': []}
+    deadline = time.time() + (3600 if tier == 'quick' else 6 * 3600)
     for h, d, hcmd in procs:
+        try:
+            hrc = h.wait(timeout=max(1, deadline - time.time()))
+        except subprocess.TimeoutExpired:
+            h.kill()
+            hrc = h.wait()
+            res['errors'].append(f'harness killed after the overall time limit: {" ".join(hcmd)}')
         d.wait()
-        hrc = h.wait()
         d._outf.seek(0); out = d._outf.read(); d._outf.close()
         h._errf.seek(0); herr = h._errf.read(); h._errf.close()
         for f in (d._outf.name, h._errf.name):
@@ -201,7 +207,14 @@ def run_family(fam, tier, seed):
             except OSError:
                 pass
         res['cmds'].append(' '.join(hcmd))
-        if hrc != 0:
+        if hrc == 97 and 'HANG\t' in herr:
+            # the watchdog of the harness: one case did not return within the limit; the input is the failing input
+            hl = [l for l in herr.splitlines() if l.startswith('HANG\t')][-1].split('\t')
+            # (no property id in the message: whatever property is being checked is undecided on this input)
+            res['oracle'] += 1
+            res['ORACLE'].append([fam['name'], hl[2] if len(hl) > 2 else '',
+                                  f'FAIL: the implementation did not return within {hl[1]} s on this input (endless loop or unbounded recursion)'])
+        elif hrc != 0:
             res['errors'].append(f'harness exit {hrc}: {herr[-500:]}')
         if d.returncode != 0:
             res['errors'].append(f'driver exit {d.returncode}: {out[-500:]}')
